@@ -333,6 +333,16 @@ def dropTrailingPartial : List (Entry × Bool) → List (Entry × Bool)
     | [] => if f.2 then [] else [f]
     | r => f :: r
 
+/-- second half of `Oplog::open`: the entries after the header slots -/
+def readLog (o : OpenOutcome) (existing : Bytes) : R OpenOutcome :=
+  if existing.length > Spec.entriesOffset then
+    match readEntries o.state.currentBit (existing.length) (existing.drop Spec.entriesOffset) with
+    | .error e => .error e
+    | .ok (es, n) =>
+      .ok { o with state := { o.state with entriesLength := es.length, entriesByteLength := n },
+                   entries := (dropTrailingPartial es).map (·.1) }
+  else .ok o
+
 /-- `Oplog::open`.  `keyPair = none` is `open(true)`. -/
 def openLog (keyPair : Option (Bytes × Option Bytes)) (existing : Bytes) : R OpenOutcome :=
   let h1 := if existing.length < Spec.headerSize then none else validateLeader (existing.take Spec.headerSize)
@@ -361,14 +371,7 @@ def openLog (keyPair : Option (Bytes × Option Bytes)) (existing : Bytes) : R Op
        | none => .error .err)
   match start with
   | .error e => .error e
-  | .ok o =>
-    if existing.length > Spec.entriesOffset then
-      match readEntries o.state.currentBit (existing.length) (existing.drop Spec.entriesOffset) with
-      | .error e => .error e
-      | .ok (es, n) =>
-        .ok { o with state := { o.state with entriesLength := es.length, entriesByteLength := n },
-                     entries := (dropTrailingPartial es).map (·.1) }
-    else .ok o
+  | .ok o => readLog o existing
 
 end Oplog
 end HC
